@@ -98,6 +98,22 @@ Theorem C07_no_reuse :
 Proof. exact no_reuse_now. Qed.
 Print Assumptions C07_no_reuse.
 
+(** Bounded progress after such a clash: the pass stores the bumped counter, and whatever the next pass creates carries
+    the name of the bumped counter (the history monitor m07_clash_progress). *)
+Theorem C07_clash_then_next_name :
+  forall hash slices stale w w' evs r c fault2 stale2 w'' evs2 r2 n phs prev h cr,
+    NoDup (map sname (dw_sets w)) -> d_paused (dw_dep w) = false -> d_phases (dw_dep w) <> [] ->
+    has_rev0 (listed stale w) = false -> has_current (dep_hashed hash w) (listed stale w) = false ->
+    In c (dw_sets w) -> sname c = hash (d_digest (dw_dep w)) (d_cc (dw_dep w)) ->
+    (is_archived c = true \/ phases_eqb (d_phases (dw_dep w)) (os_phases (ds_set c)) = false \/
+     ds_ctrl c <> oi_uid (d_id (dw_dep w)) \/
+     ((srev c < latest_revision (listed stale w))%Z /\ srev c <> 0%Z)) ->
+    dep_pass hash None slices stale w = (w', evs, r) ->
+    dep_pass hash fault2 slices stale2 w' = (w'', evs2, r2) -> In (DCreate n phs prev h cr) evs2 ->
+    d_cc (dw_dep w') = bump_cc (d_cc (dw_dep w)) /\ n = hash (d_digest (dw_dep w)) (bump_cc (d_cc (dw_dep w))).
+Proof. exact clash_then_next_name. Qed.
+Print Assumptions C07_clash_then_next_name.
+
 (** The collision counter changes in no other way. *)
 Theorem C07_bump_only_on_clash :
   forall hash fault slices stale w w' evs r h cc cs rv co sr,
